@@ -105,6 +105,12 @@ mod tests;
 #[doc(hidden)]
 pub mod verif;
 
+#[cfg(all(fast_qr_verif, not(target_arch = "wasm32")))]
+#[path = "wasm.rs"]
+#[doc(hidden)]
+#[allow(missing_docs)]
+pub mod wasm_host;
+
 #[cfg(target_arch = "wasm32")]
 mod wasm;
 
